@@ -21,7 +21,7 @@ def setup(ctx):
     algos.install_ilp_counter()
 
 
-def plan(tier, seed):
+def _plan(tier, seed):
     if tier == "quick":
         return ([{"n_cases": 150, "mode": "A", "hashseed": i % 2} for i in range(6)] +
                 [{"n_cases": 28, "mode": "AD", "hashseed": i % 2} for i in range(4)] +
@@ -30,6 +30,12 @@ def plan(tier, seed):
             [{"n_cases": 250, "mode": "AD", "hashseed": i % 4} for i in range(8)] +
             [{"n_cases": 700, "mode": "B", "hashseed": i} for i in range(2)] +
             [{"n_cases": 250, "mode": "C", "hashseed": i} for i in range(2)])
+
+def plan(tier, seed):
+    """+ one shard running the repository's own tests under the monitors (vf/pytest_plugin.py)"""
+    shards = _plan(tier, seed)
+    shards.append({"kind": "repotests", "n_cases": 0})
+    return shards
 
 
 def gen_case(rng, ctx):
